@@ -150,6 +150,9 @@ func concCase(r *vk.Run, c *vk.Case) {
 		}
 		batch := []int{1, 2, 3, 10}[rng.Intn(4)]
 		actEvery := rng.Range(1, 4)
+		if long {
+			actEvery = rng.Range(4, 60) // a pacer yields at every transaction it gives; keep the remover slower than the selection
+		}
 
 		ctl.trace = ctl.trace[:0]
 		ctl.examined = map[string]int{}
@@ -175,6 +178,16 @@ func concCase(r *vk.Run, c *vk.Case) {
 						if removed[s] < len(lists[s]) {
 							cand = append(cand, s)
 						}
+					}
+					var ready []int // victims whose transactions in front of their first gap were all examined by the running selection
+					for _, s := range cand {
+						rest := lists[s][removed[s]:]
+						if g := firstGapPrefix(rest); g > 0 && ctl.examined[rest[g-1].Hash] > 0 {
+							ready = append(ready, s)
+						}
+					}
+					if len(ready) > 0 && rng.Chance(1, 2) {
+						cand = ready // "the block with the transactions selected so far got committed"
 					}
 					if len(cand) > 0 {
 						s := cand[rng.Intn(len(cand))]
